@@ -39,16 +39,17 @@ pub struct Run {
     pub max_calls: usize,
     pub min_progress: bool,     // assert per-call progress (C08)
     pub full_while_pending: bool,
+    pub prefix_check: usize,    // C12: encoding index + 1 whose real decoder must accept the output so far after every call
 }
 
 impl Run {
     pub fn new(cap: usize) -> Run {
         Run { log: Log::new(), calls: 0, total_read: 0, had_errors: false, output_full_seen: false, finished: false,
-              caps: [cap; 8], ncaps: 1, cap_lo: cap, cap_hi: cap, drawn: 0, max_calls: 200, min_progress: true, full_while_pending: false }
+              caps: [cap; 8], ncaps: 1, cap_lo: cap, cap_hi: cap, drawn: 0, max_calls: 200, min_progress: true, full_while_pending: false, prefix_check: 0 }
     }
     /// symbolic per-call capacities in lo..=hi for the first `n` calls (then cycled)
     pub fn sym_caps(&mut self, lo: usize, hi: usize, n: usize) { self.cap_lo = lo; self.cap_hi = hi; self.ncaps = n; self.drawn = 0; }
-    fn cap(&mut self) -> usize {
+    pub fn cap(&mut self) -> usize {
         let k = self.calls % self.ncaps;
         if self.cap_hi > self.cap_lo && k >= self.drawn && self.calls < self.ncaps {
             self.caps[k] = sym_range(110 + k as u32, self.cap_lo, self.cap_hi);
